@@ -363,7 +363,7 @@ def _plain(model, v):
 
 
 def stats_dict(st):
-    return {'paths': st.paths, 'queries': st.queries, 'sat': st.sat, 'unsat': st.unsat, 'unknown': st.unknown,
+    return {'xresults': list(getattr(st, 'xresults', [])), 'paths': st.paths, 'queries': st.queries, 'sat': st.sat, 'unsat': st.unsat, 'unknown': st.unknown,
             'solver_s': st.solver_s, 'steps': st.steps, 'fns': dict(st.fns), 'models': sorted(st.models)}
 
 
